@@ -35,6 +35,32 @@ theorem getter_only_when_optimal {α} (didTimeout : Bool) (native : Status) (d x
   · rename_i hs; exact (solved_iff_optimal _ _).1 hs
   · cases h
 
+/-! ### one model object solved several times
+
+`solve()` of the abstract k-models ends with `self._is_solved = True` in the optimal branch and `self._is_solved = False`
+in every other branch, so the flag always reflects the LAST run (the seeded change C13-5 dropped the second assignment
+and made the flag sticky). -/
+
+/-- the solved flag of one model object after a sequence of `solve()` calls, each with its custom-timeout flag and the
+status the backend reported; `false` before the first call -/
+def flagAfter (runs : List (Bool × Status)) : Bool :=
+  runs.foldl (fun _ r => isSolvedAfter r.1 r.2) false
+
+theorem flag_reflects_last_run (runs : List (Bool × Status)) (dt : Bool) (st : Status) :
+    flagAfter (runs ++ [(dt, st)]) = isSolvedAfter dt st := by
+  simp [flagAfter, List.foldl_append]
+
+/-- after any history of runs the getters hand out data only if the last run was proven optimal -/
+theorem resolve_getter_only_when_last_optimal {α} (runs : List (Bool × Status)) (dt : Bool) (st : Status) (d x : α)
+    (h : getter (flagAfter (runs ++ [(dt, st)])) d = .ok x) : dt = false ∧ st = .optimal := by
+  rw [flag_reflects_last_run] at h
+  exact getter_only_when_optimal dt st d x h
+
+/-- an earlier optimal run does not survive a later inconclusive one -/
+example : flagAfter [(false, .optimal), (false, .other)] = false := by decide
+
+theorem never_solved_before_first_run : flagAfter [] = false := rfl
+
 /-! ### minimum searches (`MinFlowDecomp`, `MinPathCover`, `MinPathCoverCycles`, `MinGenSet`) -/
 
 /-- a returned `k` was proven optimal, lies in the searched range and every smaller tried value was
